@@ -388,7 +388,7 @@ func runParent(id, tier string, seed int64) int {
 		os.WriteFile(path, b, 0o644)
 		d := cv.V.Detail
 		if len(d) > 600 {
-			d = d[:600] + "..."
+			d = strings.ToValidUTF8(d[:600], "") + "..."
 		}
 		fmt.Printf("VIOLATION property=%s replay=%s signature=%q occurrences=%d detail=%s\n", id, path, sig, len(cvs), strings.ReplaceAll(d, "\n", " | "))
 	}
